@@ -31,11 +31,11 @@ Lemma witness_lengths_full_block :
   dbp_read_lengths (dbp_encode 32 128 4 (repeat 1 129) ++ [9; 9]) = Ok (repeat 1 129, [9; 9]).
 Proof. vm_compute. reflexivity. Qed.
 
-(* asking for more values than the page holds still panics (`values_remaining -= 1` underflows):
-   the resumption theorem needs n1 + n2 <= available values *)
-Lemma dbp_over_read_panics : dbp_decode_split 32 witness_page [3%nat; 2%nat] = Panic.
+(* asking for more values than the page holds fails (`values_remaining.checked_sub(1)`: an error since the repair
+   c80d6338b, an underflow panic before): the resumption theorem needs n1 + n2 <= available values *)
+Lemma dbp_over_read_panics : dbp_decode_split 32 witness_page [3%nat; 2%nat] = Err.
 Proof. vm_compute. reflexivity. Qed.
-Lemma dbp_over_read_single_panics : dbp_decode_split 32 witness_page [5%nat] = Panic.
+Lemma dbp_over_read_single_panics : dbp_decode_split 32 witness_page [5%nat] = Err.
 Proof. vm_compute. reflexivity. Qed.
 
 (* single read round trip on a non-trivial instance: negative deltas, 64 bit wrap-around, two
